@@ -3,6 +3,7 @@ mod corpus;
 mod exp;
 mod h_c01;
 mod h_content;
+mod h_readonly;
 mod h_run;
 mod h_timeline;
 mod hist;
@@ -61,9 +62,11 @@ fn main() {
         "C14" => h_c01::run_c14(tier, replay),
         "C15" => h_timeline::run(tier, replay),
         "C16" => q_page::run(tier, replay),
+        "C18" => h_readonly::run(tier, replay),
         "C19" => h_c01::run_c19(tier, replay),
         "C24" => h_c01::run_c24(tier, replay),
         "C26" => h_c01::run_c26(tier, replay),
+        "C42" => h_c01::run_c42(tier, replay),
         "C30" => p_codec::run_c30(tier, replay),
         "C31" => p_codec::run_c31(tier, replay),
         "C32" => p_query::run(tier, replay),
@@ -84,6 +87,7 @@ fn worker(kind: &str) {
     match kind {
         "c32" => p_query::worker(),
         "hist" => hist::worker(),
+        "c18" => h_readonly::worker(),
         "vec" => q_vec::worker(),
         "corpus" => corpus::worker(),
         "c07" => h_content::worker(),
